@@ -287,6 +287,7 @@ def _splice(caller, bb, callee, j=None, counter=None, selfty=None, new_traits=()
         caller["promoted"] = list(caller["promoted"]) + copy.deepcopy(callee["promoted"])
     dest, target, span = t["dest"], t.get("target"), t["span"]
     for b in body["blocks"]:
+        b.setdefault("from_fn", callee["key"])   # innermost origin of a spliced block (R-WRITERS: a new Store helper's writes are the Store's)
         _walk_places(b, reloc)
         _walk_consts(b, reprom)
         _retarget(b["term"], boff)
